@@ -71,7 +71,10 @@ def integerise(valid, flux, error, both=False):
     f = np.array(flux, float)
     e = np.array(error, float)
     lin = (valid == 1) | (valid == 2) | (valid == 3) | ((valid == 9) & (f > 0))      # (a positive plot-only value stays positive)
+    f_old = f.copy()
     f[lin] = np.clip(np.round(f[lin]), 1.0, 1e9)          # (1e9: representable in every integer container used, int32 included)
+    one = (valid == 1) & (f_old > 0)
+    e[one] = e[one] * (f[one] / f_old[one])               # the relative error of a measurement stays what the generator drew (1e-6 .. 3)
     f[~lin] = np.clip(np.round(f[~lin]), -1e9, 1e9)
     if both:
         fit = (valid == 1) | (valid == 4)
